@@ -32,7 +32,8 @@ def __check_ensemble_data(obs, ens):
     # Convert data to proper dimensions
     obs = np.atleast_1d(obs).astype(np.float64)
     if obs.ndim > 1:
-        obs = obs.squeeze()
+        # atleast_1d: a single forecast given as [1, 1] squeezes to 0d
+        obs = np.atleast_1d(obs.squeeze())
     if obs.ndim > 1:
         raise ValueError("obs is not 1D")
 
